@@ -13,6 +13,8 @@
 //!    "hist": n (position in a history, 0 = from the default state), "why", "ok"}
 //!   {"k":"sql", ...}  SET key = 'text' through SessionContext + SHOW key  vs  the API path
 //!   {"k":"keys", ...} the enumerated keys per configuration (for the evidence)
+//! Not exercised (by design of TableOptions, not options): `execution.*` keys are accepted and ignored,
+//! `format.metadata::k` is stored in key_value_metadata which entries() does not list.
 //! "ok" = the direct property oracle:
 //!   * err  -> entries() identical to before (nothing changed, no entry appeared / disappeared)
 //!   * ok   -> the key is a listed key; no OTHER entry changed (documented exception: the umbrella key
@@ -223,7 +225,13 @@ fn set_case(cfg_name: &str, cfg: &mut Cfg, key: &str, text: &str, hist: u64) -> 
             if listed.is_none() && get(&e1, key).is_none() {
                 why = "set succeeded on a key that entries() does not list".into();
             }
-            let allowed = |k: &String| key == UMBRELLA && UMBRELLA_DEPS.contains(&k.as_str());
+            // documented: the umbrella key assigns its dependants; a column-specific key `field::col` of a column
+            // not seen before makes the column's other (unset) entries appear
+            let col = key.find("::").map(|i| &key[i..]);
+            let allowed = |k: &String| {
+                (key == UMBRELLA && UMBRELLA_DEPS.contains(&k.as_str()))
+                    || (col.map(|c| k.ends_with(c)).unwrap_or(false) && get(&e0, k).is_none() && get(&e1, k) == Some(None))
+            };
             if why.is_empty() && others.iter().any(|k| !allowed(k)) {
                 why = "set changed another entry".into();
             }
@@ -413,11 +421,11 @@ fn main() {
             "datafusion.execution.max_buffered_batches_per_output_file.zzz", "datafusion.explain.format.zzz", "datafusion.execution.time_zone.zzz",
             "datafusion.execution.parquet.max_row_group_bytes.zzz", "datafusion.runtime.memory_limit", "datafusion.extension.x", " datafusion.execution.batch_size",
         ]),
-        ("csv", vec!["format", "format.", "format.nope", "format.delimiter.x", "csv.delimiter", "execution.batch_size", "nope.x", "format.delimiter::c"]),
+        ("csv", vec!["format", "format.", "format.nope", "format.delimiter.x", "csv.delimiter", "nope.x", "format.delimiter::c"]),
         ("json", vec!["format.nope", "format.compression.x", "json.compression"]),
         ("parquet", vec![
             "format.nope", "format.compression::col1", "format.bloom_filter_enabled::col1", "format.bloom_filter_fpp::col1", "format.encoding::a.b",
-            "format.nope::col1", "format.compression::", "format.metadata::k1", "format.metadata::", "format.metadata::a::b",
+            "format.nope::col1", "format.compression::", "format.metadata::", "format.metadata::a::b",
             "format.pruning.x",
         ]),
     ]
